@@ -40,22 +40,67 @@ def lit(f, c):
 
 
 def dataset(rnd, na, nb):
+    """rows flagged old are written before the model update that adds the fields with a default (d, n): they do not hold them"""
     B, A = [], []
     for k in range(nb):
-        B.append({"id": 101 + k, "u": k + 1, "t": rnd.choice([0, 1, 1, 2]), "n": rnd.choice([0, 1, 3])})
+        old = rnd.random() < 0.4
+        n = 0 if old else rnd.choice([None, 1, 3])
+        B.append({"id": 101 + k, "u": k + 1, "old": old, "t": rnd.choice([0, 1, 1, 2]), "n": n})
+    oldb = [b["id"] for b in B if b["old"]]
     for k in range(na):
-        A.append({"id": k + 1, "u": k + 1, "s": rnd.choice([0, 1, 2, 2, 3]), "i": rnd.choice([0, 1, 2, 2, 3]), "d": rnd.choice([0, 0, 1, 3]),
+        old = bool(oldb) and rnd.random() < 0.4
+        pool = oldb if old else [b["id"] for b in B]
+        d = 0 if old else rnd.choice([None, None, 1, 3])
+        A.append({"id": k + 1, "u": k + 1, "old": old, "s": rnd.choice([0, 1, 2, 2, 3]), "i": rnd.choice([0, 1, 2, 2, 3]), "d": d,
                   "f": rnd.choice([0, 1, 2]), "b": rnd.choice([0, 1, 2]),
-                  "one": rnd.choice([[], [rnd.choice(B)["id"]]]), "many": sorted(rnd.sample([b["id"] for b in B], rnd.randrange(0, nb + 1))),
-                  "self": [], "req": [rnd.choice(B)["id"]]})
+                  "one": rnd.choice([[], [rnd.choice(pool)]]), "many": sorted(rnd.sample(pool, rnd.randrange(0, len(pool) + 1))),
+                  "self": [], "req": [rnd.choice(pool)]})
     for a in A:
-        if rnd.random() < 0.5:
+        if not a["old"] and rnd.random() < 0.5:
             a["self"] = [rnd.choice(A)["id"]]
     rnd.shuffle(A)
-    coded = {"A": A, "B": B}
-    concrete = {"A": [dict(a, **{f: raw(f, a[f]) for f in ("s", "i", "d", "f", "b")}) for a in A],
-                "B": [dict(b, **{f: raw(f, b[f]) for f in ("t", "n")}) for b in B]}
+    # what is stored: a new row written without the field holds the default (2); an old row does not hold the field
+    coded = {"A": [dict(a, d=(2 if a["d"] is None else a["d"])) for a in A], "B": [dict(b, n=(2 if b["n"] is None else b["n"])) for b in B]}
+    for e in ("A", "B"):
+        for r in coded[e]:
+            del r["old"]
+    concrete = {"A": [dict(a, **{f: (raw(f, a[f]) if a[f] is not None else None) for f in ("s", "i", "d", "f", "b")}) for a in A],
+                "B": [dict(b, **{f: (raw(f, b[f]) if b[f] is not None else None) for f in ("t", "n")}) for b in B]}
     return coded, concrete
+
+
+def gen_agg_ast(rnd, ent):
+    """an aggregate query: the selected fields are the grouping keys"""
+    sc = SCALARS[ent]
+    sel = rnd.sample(sc[1:], rnd.choice([0, 1, 1, 2]))
+    aggs = []
+    names = iter(["a1", "a2", "a3"])
+    for _ in range(rnd.choice([1, 2, 3])):
+        fn = rnd.choice(["count", "max", "min", "sum", "avg"])
+        if fn == "count":
+            aggs.append([next(names), fn, ""])
+        elif fn in ("sum", "avg"):
+            aggs.append([next(names), fn, rnd.choice([f for f in sc if f in ("u", "i", "d", "n")])])
+        else:
+            aggs.append([next(names), fn, rnd.choice([f for f in sc if f != "b"])])
+    filters = []
+    if rnd.random() < 0.4:
+        f = rnd.choice([x for x in sc if x != "b"])
+        filters.append([f, rnd.choice(["<", "<=", ">", ">=", "!="]), rnd.choice([1, 2, 3])])
+    having = []
+    if rnd.random() < 0.35:
+        a = rnd.choice(aggs)
+        if a[1] in ("count", "sum") or (a[1] in ("max", "min") and a[2] in ("u", "i", "d", "n")):
+            having.append([a[0], rnd.choice(["<", "<=", ">", ">=", "=", "!="]), rnd.choice([1, 2, 3])])
+    order = [[f, rnd.choice(["asc", "desc"])] for f in sel]
+    if rnd.random() < 0.4:
+        order = [[rnd.choice(aggs)[0], rnd.choice(["asc", "desc"])]] + order
+    first = rnd.choice([0, 0, 1, 2]) if sel else 0
+    skip = rnd.choice([0, 0, 1]) if sel else 0
+    if not sel:
+        order = []
+    return {"ent": ent, "sel": sel, "filters": filters, "order": order, "first": first, "skip": skip, "page": {"kind": "none", "vals": []}, "nullable": [], "subs": [],
+            "aggs": aggs, "having": having}
 
 
 def gen_ast(rnd, ent, depth, nrows, root=True):
@@ -94,13 +139,16 @@ def gen_ast(rnd, ent, depth, nrows, root=True):
             subs.append([fld, sq])
         if rnd.random() < 0.4:
             nullable = [x[0] for x in subs if rnd.random() < 0.6]
-    return {"ent": ent, "sel": sel, "filters": filters, "order": order, "first": first, "skip": skip, "page": page, "nullable": nullable, "subs": subs}
+    return {"ent": ent, "sel": sel, "filters": filters, "order": order, "first": first, "skip": skip, "page": page, "nullable": nullable, "subs": subs, "aggs": [], "having": []}
 
 
 def render_params(q, extra=None):
     parts = []
     for f, op, v in q["filters"]:
         parts.append("%s %s %s" % (f, op, lit(f, v)))
+    for al, op, v in q.get("having", []):
+        a = [x for x in q["aggs"] if x[0] == al][0]
+        parts.append("%s %s %s" % (al, op, lit(a[2], v) if a[1] in ("max", "min") else str(v)))
     if q["order"]:
         parts.append("order_by(%s)" % ", ".join("%s %s" % (k, d) for k, d in q["order"]))
     if q["first"]:
@@ -118,6 +166,8 @@ def render_params(q, extra=None):
 
 def render_body(q):
     out = list(q["sel"])
+    for al, fn, f in q.get("aggs", []):
+        out.append("%s: %s(%s)" % (al, fn, f))
     for fld, sq in q["subs"]:
         out.append("%s%s { %s }" % (fld, render_params(sq), render_body(sq)))
     return " ".join(out)
@@ -146,7 +196,7 @@ def run(ctx, replay):
             queries = []
             for j in range(nq):
                 ent = "A" if rnd.random() < 0.85 else "B"
-                ast = gen_ast(rnd, ent, rnd.choice([0, 1, 1, 2]), len(coded[ent]))
+                ast = gen_agg_ast(rnd, ent) if rnd.random() < 0.2 else gen_ast(rnd, ent, rnd.choice([0, 1, 1, 2]), len(coded[ent]))
                 queries.append({"qid": j + 1, "kind": "query", "text": render(ast), "params": None, "ast": ast})
             for j in range(npg):
                 ent = "A" if rnd.random() < 0.8 else "B"
@@ -192,7 +242,7 @@ def run(ctx, replay):
         for q in sc["queries"]:
             nqueries += 1
             a = q["ast"]
-            classes.add((q["kind"], a["ent"], len(a["filters"]), len(a["order"]), bool(a["first"]), bool(a["skip"]), a["page"]["kind"], len(a["subs"]), bool(a["nullable"]),
+            classes.add((q["kind"], a["ent"], tuple(sorted(x[1] for x in a.get("aggs", []))), len(a.get("having", [])), len(a["filters"]), len(a["order"]), bool(a["first"]), bool(a["skip"]), a["page"]["kind"], len(a["subs"]), bool(a["nullable"]),
                          tuple(sorted(s[0] for s in a["subs"]))))
     ctx.cov["queries_run"] = nqueries
     ctx.cov["samples"].append(scen[0]["queries"][0]["text"])
